@@ -133,7 +133,12 @@ fn check_inner(sub: &str, g: &G, toks: &[char], alpha: &[char], l: &mut Local) -
             l.evals += 1;
             l.bump("extensions_tried");
             if is_clean_accept(&o) {
-                let ok = variants(g, &w).iter().any(|op| reference::eval(g, &w, op.clone()).accepted);
+                let wrefs: Vec<RefOut> = variants(g, &w).iter().map(|op| reference::eval(g, &w, op.clone())).collect();
+                if wrefs.iter().any(|r| r.stats.fuel_out) {
+                    l.bump("extension_unspecified_skipped");
+                    continue;
+                }
+                let ok = wrefs.iter().any(|r| r.accepted);
                 if !ok {
                     let mut cs = case();
                     cs.input = sw.clone();
